@@ -85,6 +85,45 @@ theorem C03_keyword_table_complete :
 theorem C03_keyword_table_sound :
     Gen.pythonKeywords.filter (fun k => !Gen.kwlist.contains k) = [] := by decide
 
+/-- table obligation (regenerated table): no keyword followed by `_` is itself in the table -/
+theorem keyword_table_closed :
+    (Gen.pythonKeywords.all fun k => !Gen.pythonKeywords.contains (k ++ "_")) = true := by decide
+
+/-- **the exposed name is never a Python keyword**, for every declared name: the escaping does what it is for -/
+theorem C03_escaped_name_is_no_keyword (n : String) :
+    Gen.pythonKeywords.contains (escapeKeyword Gen.pythonKeywords n) = false := by
+  rw [C03_keyword_escape]
+  by_cases h : Gen.pythonKeywords.contains n = true
+  · simp only [h, if_true]
+    have := List.all_eq_true.1 keyword_table_closed n (by simpa using h)
+    simpa using this
+  · simp only [h]
+    simpa using h
+
+theorem append_us_inj {a b : String} (h : a ++ "_" = b ++ "_") : a = b := by
+  have := congrArg String.toList h
+  simp only [String.toList_append] at this
+  exact String.toList_inj.1 (List.append_cancel_right this)
+
+/-- **distinct declared names stay distinct** under the escaping, except the one inherent clash of a keyword `k` with a
+    sibling that is literally spelled `k_` (e.g. `lambda` and `lambda_`): "under its declared name" loses no binding -/
+theorem C03_escape_collisions (a b : String)
+    (h : escapeKeyword Gen.pythonKeywords a = escapeKeyword Gen.pythonKeywords b) :
+    a = b ∨ (Gen.pythonKeywords.contains a = true ∧ b = a ++ "_") ∨ (Gen.pythonKeywords.contains b = true ∧ a = b ++ "_") := by
+  rw [C03_keyword_escape, C03_keyword_escape] at h
+  by_cases ha : Gen.pythonKeywords.contains a = true <;> by_cases hb : Gen.pythonKeywords.contains b = true
+  · simp only [ha, hb, if_true] at h
+    exact Or.inl (append_us_inj h)
+  · simp only [ha, hb, if_true] at h
+    exact Or.inr (Or.inl ⟨ha, by simpa using h.symm⟩)
+  · simp only [ha, hb, if_true] at h
+    exact Or.inr (Or.inr ⟨hb, by simpa using h⟩)
+  · simp only [ha, hb] at h
+    exact Or.inl (by simpa using h)
+
+/-- the exceptional clash exists (so the disjunction cannot be dropped) -/
+example : escapeKeyword Gen.pythonKeywords "lambda" = escapeKeyword Gen.pythonKeywords "lambda_" := by decide
+
 /-- non-vacuity of `C03_submodule_first` -/
 example : partialMatch ["", "gtsam", "noise"] ["", "gtsam"] = true ∧ ["", "gtsam"].length < ["", "gtsam", "noise"].length := by decide
 
